@@ -10,6 +10,7 @@ theorem display_eq (fmt : F → String) (s : BollingerBands F) :
     display fmt s = "BB(" ++ toString s.period ++ ", " ++ fmt s.multiplier ++ ")" := rfl
 theorem default_eq : (default_ : Option (BollingerBands F)) = some (fresh 9 (Scalar.lit 2 0)) := by
   unfold default_
+  try simp only [gen_helper]
   rw [new_eq]
   simp [unwrap, isizeMax]
 
